@@ -240,4 +240,3 @@ func TestVerifC07(t *testing.T) {
 	}
 	out.emit(vM{"k": "stat", "dist": stats})
 }
-
